@@ -57,14 +57,27 @@ PG = postgresql.dialect()
 
 
 # ------------------------------------------------------------------ history construction
-def _sib_descs(case):
+def _sib_descs(case, excluded=None):
     out = []
     menu = case["menu"]
+    if not case.get("pinned"):
+        # type pairs that reproduce known findings (with_variant mapping / Enum name+members missing from the cache key)
+        def _strip(n):
+            if n[0] == "tc" and len(n) > 5 and n[5]:
+                n[5] = None
+                if excluded is not None:
+                    excluded.append(1)
+            return False
+
+        for b in case["bases"]:
+            G._walk(b, _strip)
     rel = [G.relevant_toggles(b) for b in case["bases"]]  # toggles that change the base: every menu entry is a real structural change
     for i, sb in enumerate(case["sibs"]):
         base = case["bases"][sb["b"] % len(case["bases"])]
         names = rel[sb["b"] % len(case["bases"])]
         togs = [names[t % len(names)] for t in menu[sb["m"] % len(menu)]] if names else []
+        if case.get("typearg") and i % 2 == 1 and "type_arg" in names:
+            togs.append("type_arg")  # every other sibling uses the other member of a type-argument pair
         if case.get("nocache") and i % 2 == 1 and "nocache_type" in names:
             togs.append("nocache_type")  # every other sibling has no cache key at all (oracle 3)
         togs = list(dict.fromkeys(togs))
@@ -213,7 +226,13 @@ def _params_of(c, params, extracted=None):
     return out
 
 
-def _key_soundness(built, dialects, ctx_classes):
+def _pinned_fam(desc):
+    found = []
+    G._walk(desc, lambda n: found.append(n[5]) or True if n[0] == "tc" and len(n) > 5 and n[5] else False)
+    return found[0] if found else None
+
+
+def _key_soundness(built, dialects, ctx_classes, descs=None):
     groups = {}
     keys = []
     for i, b in enumerate(built):
@@ -239,6 +258,14 @@ def _key_soundness(built, dialects, ctx_classes):
                 c2, e2 = _fresh(built[j].stmt, dialect, colkeys, many, keys[j])
                 s2 = _shape(c2) if c2 is not None else e2
                 if s1 != s2:
+                    pf = _pinned_fam(descs[i]) if descs else None
+                    if pf:
+                        raise Violation(
+                            {"V": "C02/key-soundness/with_variant-mapping-not-in-key", "E": "C02/key-soundness/enum-name-and-members-not-in-key"}[pf],
+                            f"statements {i} and {j} differ only in a type ({'the sqlite variant of with_variant()' if pf == 'V' else 'Enum name / members'}), "
+                            f"have equal cache keys and compile differently on {dname}",
+                            observed=s2, expected=s1,
+                        )
                     field = "error" if not (isinstance(s1, dict) and isinstance(s2, dict)) else next(f for f in s1 if s1[f] != s2[f])
                     raise Violation(
                         f"C02/key-soundness/equal-keys-different-{field}",
@@ -261,7 +288,10 @@ def _key_soundness(built, dialects, ctx_classes):
 
 # ------------------------------------------------------------------ the check
 def check_history(case, ctx):
-    sibs = _sib_descs(case)
+    excluded = []
+    sibs = _sib_descs(case, excluded)
+    for _ in excluded:
+        ctx.exclude("type pair reproducing a known finding (with_variant mapping / Enum name+members not in the cache key) replaced by a regular type family")
     n = len(sibs)
     classes = set()
     perm = [p % n for p in case["perm"]]
@@ -310,12 +340,22 @@ def check_history(case, ctx):
         classes.add("hits-warm:%s" % ("0" if not hit_warm else "1-3" if hit_warm <= 3 else "4+"))
         if one_apart:
             classes.add("one-toggle-apart")
+        # type-argument siblings: same base executed with both members of a type-argument pair
+        for bi in range(len(case["bases"])):
+            with_t = [d for b_, t, d, _ in sibs if b_ == bi and "type_arg" in t]
+            without = [d for b_, t, d, _ in sibs if b_ == bi and "type_arg" not in t]
+            if with_t and without:
+                classes.add("type-arg-toggled")
+                tcs = []
+                G._walk(without[0], lambda n_: tcs.append(n_) or True if n_[0] == "tc" else False)
+                if tcs and tcs[0][3] % G.N_FAMS < len(G.NUM_FAMS) and tcs[0][4] % 4 in (0, 1):
+                    classes.add("type-arg-toggled:absent-vs-falsy")
         if "CACHE_HIT" in off_modes or "CACHE_MISS" in off_modes:
             raise Violation("C02/control/cache-not-disabled", f"engine with query_cache_size=0 reported {sorted(map(str, off_modes))}")
 
         # ---- (2) key soundness on fresh objects
         built = _build_all(case, sibs)
-        pairs, keys = _key_soundness(built, [("sqlite", e_cold.eng.dialect), ("postgresql", PG)], classes)
+        pairs, keys = _key_soundness(built, [("sqlite", e_cold.eng.dialect), ("postgresql", PG)], classes, [d for _, _, d, _ in sibs])
         if pairs:
             classes.add("equal-key-pairs")
         ctx.note(case, nontrivial, classes=classes)
@@ -375,6 +415,7 @@ def _histories(draw):
         "sibs": sibs,
         "perm": draw(st.lists(st.integers(0, 30), max_size=8)),
         "nocache": draw(st.sampled_from([0, 0, 0, 0, 0, 0, 1])),
+        "typearg": draw(st.sampled_from([0, 1, 1, 1])),
     }
 
 
